@@ -202,7 +202,7 @@ def layout_choice(rng, ndim, want_blas=False):
     return rng.choice(['CCC', 'FFF', 'CFC', 'FCF', 'CCF', 'SCC', 'CCS', 'FSF', 'SSS'])
 
 
-IMPORTS = ['C01.Syntax', 'Gen.Lincomb', 'C01.Carriers', 'C01.Model', 'C01.Corr']
+IMPORTS = ['C01.Syntax', 'Gen.Lincomb', 'C01.Carriers', 'C01.Model', 'C01.ModelSpace', 'C01.Corr']
 BIG_CHUNK = 5       # big cases per shard (each costs ~1.5 s of vm_compute)
 
 
@@ -285,6 +285,351 @@ def lincomb_cases(rng, tier, S):
                         run((50000,), alias, a, b, 'unused', want_blas=True)
 
 
+# ------------------------------------------------------------------ space-level arithmetic
+# space recipes: ('T', dtype, shape) tensor space | ('D', dtype, shape) uniform_discr | ('P', [recipes])
+CHECKW = {'real': 'checkW_real (%s)', 'cx': 'checkW_cx (%s)', 'nan': 'checkW_nan (%s)',
+          'cxnan': 'checkW_cxnan (%s)'}
+
+
+def mk_space(r):
+    import odl
+    if r[0] == 'T':
+        return odl.tensor_space(r[2], dtype=r[1])
+    if r[0] == 'D':
+        shape = r[2]
+        return odl.uniform_discr([0.0] * len(shape), [1.0] * len(shape), shape, dtype=r[1])
+    return odl.ProductSpace(*[mk_space(c) for c in r[1]])
+
+
+def coq_space(r):
+    if r[0] in ('T', 'D'):
+        return '(SLeaf %s)' % C.b(DT[r[1]][1])
+    out = 'SNil'
+    for c in reversed(r[1]):
+        out = '(SCons %s %s)' % (coq_space(c), out)
+    return '(SNode %s)' % out
+
+
+def leaf_recipes(r):
+    if r[0] in ('T', 'D'):
+        return [r]
+    return [l for c in r[1] for l in leaf_recipes(c)]
+
+
+def rand_leaf_vals(rng, r, kind):
+    """Values of one leaf; kind: 'any' | 'div' (safe divisors) | 'pow' (tiny integers)."""
+    dtype, shape = r[1], r[2]
+    n = int(np.prod(shape))
+    base = DT[dtype][0]
+    if n >= BIG:
+        g = (rng.choice([1, 2, 3, 5]), rng.randint(0, 6), rng.choice([13, 7, 5]), rng.randint(2, 4))
+        v = closed_form(n, *g).astype(float)
+        if kind == 'div':
+            v = np.where(v == 0, 2.0, v)
+    elif kind == 'div':
+        v = np.array([rng.choice([1, 2, 4, -1, -2, 8] + ([0.5, -0.25] if base != 'int' else [])) for _ in range(n)])
+    elif kind == 'pow':
+        v = np.array([float(rng.randint(-2, 2)) for _ in range(n)])
+    else:
+        v = np.array([float(rng.randint(-6, 6)) for _ in range(n)])
+    v = v.reshape(shape)
+    if base == 'cx' and kind != 'div':
+        w = np.array([float(rng.randint(-2, 2)) for _ in range(min(n, 455))])
+        v = v + 1j * np.resize(w, n).reshape(shape)
+    return v
+
+
+def mk_element(rng, r, kind='any', layout=None, share=None):
+    """odl element of the space of recipe r; `share`: an element whose leaves are reused with
+    probability 1/3 each (same position => positional aliasing between distinct elements)."""
+    space = mk_space(r)
+    if r[0] in ('T', 'D'):
+        if share is not None and rng.random() < 0.34:
+            return share
+        lay = layout or ('C' if len(r[2]) == 1 else rng.choice(['C', 'C', 'F']))
+        arr = with_layout(rand_leaf_vals(rng, r, kind), r[1], lay)
+        return space.element(arr)
+    parts = [mk_element(rng, c, kind, layout, None if share is None else share[i]) for i, c in enumerate(r[1])]
+    return space.element(parts)
+
+
+def _is_pse(el):
+    from odl.space.pspace import ProductSpaceElement
+    return isinstance(el, ProductSpaceElement)
+
+
+def _is_dse(el):
+    from odl.discr.discr_space import DiscretizedSpaceElement
+    return isinstance(el, DiscretizedSpaceElement)
+
+
+def leaf_tensors(el):
+    import odl
+    if _is_pse(el):
+        return [t for p in el.parts for t in leaf_tensors(p)]
+    if _is_dse(el):
+        return [el.tensor]
+    return [el]
+
+
+class Ctx(object):
+    """Buffers of one case: real tensor objects (by identity) and model-only temporaries."""
+
+    def __init__(self, poison):
+        self.objs, self.init, self.flags, self.bdt, self.poison = [], [], [], [], poison
+
+    def id_of(self, t, fresh=False):
+        for k, o in enumerate(self.objs):
+            if o is t:
+                return k
+        self.objs.append(t)
+        arr = np.array(t.data, copy=True)
+        if fresh:      # a temporary allocated by the implementation: the model starts it with garbage
+            arr = np.full(arr.shape, np.nan if self.poison else 0, dtype=complex if arr.dtype.kind == 'c' else float)
+        self.init.append(arr)
+        self.flags.append(flags_of(t.data))
+        self.bdt.append(DT[str(t.data.dtype)][2])
+        return len(self.objs) - 1
+
+    def term(self, el, fresh=False):
+        import odl
+        if _is_pse(el):
+            return '(Node %s)' % self.terms(el.parts, fresh)
+        t = el.tensor if _is_dse(el) else el
+        return '(Leaf %d)' % self.id_of(t, fresh)
+
+    def terms(self, parts, fresh=False):
+        ts = [self.term(p, fresh) for p in parts]       # left to right, so ids follow the traversal
+        out = 'ENil'
+        for t in reversed(ts):
+            out = '(ECons %s %s)' % (t, out)
+        return out
+
+    def hidden_like(self, el):
+        """Model-only temporary with the structure of el (e.g. the element returned by one())."""
+        import odl
+        if _is_pse(el):
+            ts = [self.hidden_like(p) for p in el.parts]
+            out = 'ENil'
+            for t in reversed(ts):
+                out = '(ECons %s %s)' % (t, out)
+            return '(Node %s)' % out
+        t = el.tensor if _is_dse(el) else el
+        self.objs.append(None)
+        kind = complex if t.data.dtype.kind == 'c' else float
+        self.init.append(np.full(t.data.shape, np.nan if self.poison else 0, dtype=kind))
+        self.flags.append((True, t.data.ndim <= 1))
+        self.bdt.append(DT[str(t.data.dtype)][2])
+        return '(Leaf %d)' % (len(self.objs) - 1)
+
+
+def compress(carrier, flat):
+    flat = np.asarray(flat).ravel()
+    n = flat.size
+    if n >= BIG:
+        for period in (1, 455, 1820):
+            if np.array_equal(np.resize(flat[:period], n), flat, equal_nan=True):
+                return '(cyc %d %s)' % (n, lits(carrier, flat[:period]))
+    return lits(carrier, flat)
+
+
+REAL_SC = [0, 1, -1, 2, 0.5, -0.25, 3]
+CX_SC = [0, 1, -1, 2, 0.5, 1j, 1 - 1j, -2j]
+DIV_SC = [2, -4, 0.5, 1, -1, 3]
+
+
+def space_case(rng, recipe, op, poison=False):
+    """Run one public operation on the implementation; returns the tuple for Sets.put."""
+    import odl
+    leaves = leaf_recipes(recipe)
+    bases = set(DT[l[1]][0] for l in leaves)
+    cxs = 'cx' in bases
+    carrier = ('cxnan' if cxs else 'nan') if poison else ('cx' if cxs else 'real')
+    tol = max(DT[l[1]][3] for l in leaves)
+    tol = max(tol, Fraction(1, 10 ** 9)) if any(b != 'int' for b in bases) else tol
+    space = mk_space(recipe)
+    ctx = Ctx(poison)
+    scs = CX_SC if cxs else REAL_SC
+    if bases == {'int'}:
+        scs = [0, 1, -1, 2, 3, 0.5, 2.5]
+    kind = 'div' if 'div' in op else ('pow' if op == 'ipow' else 'any')
+    x = mk_element(rng, recipe, 'pow' if op == 'ipow' else ('div' if op == 'divide' else 'any'))
+    same = rng.random() < 0.2
+    y = x if same else mk_element(rng, recipe, kind, share=(x if (kind == 'any' and rng.random() < 0.25) else None))
+    if op in ('itruediv', 'truediv', 'divide') and same:
+        x = y = mk_element(rng, recipe, 'div')
+    if op == 'rtruediv':
+        x = mk_element(rng, recipe, 'div')
+        if same:
+            y = x
+    c = rng.choice(DIV_SC if op in ('itruediv_s', 'truediv_s') else scs)
+    if op == 'rtruediv_s':
+        x = mk_element(rng, recipe, 'div')
+    tx = ctx.term(x)
+    ty = ctx.term(y)
+    desc = {'op': op, 'space': repr(recipe), 'same': same, 'poison': poison}
+    err = 0
+    res = None
+    cl = lambda v: lit(carrier, v)
+    extra = ''
+    with np.errstate(all='ignore'):
+        try:
+            if op in ('lincomb2', 'multiply', 'divide'):
+                z = mk_element(rng, recipe, kind)
+                tz = ctx.term(z)
+                els, tms = [x, y, z], [tx, ty, tz]
+                alias = rng.choice(sorted(ALIAS))
+                i1, i2, io = ALIAS[alias]
+                desc['alias'] = alias
+                if op == 'lincomb2':
+                    a, b = rng.choice(CX_PAIRS if cxs else (INT_PAIRS if bases == {'int'} else REAL_PAIRS))
+                    desc['a'], desc['b'] = str(a), str(b)
+                    res = space.lincomb(a, els[i1], b, els[i2], out=els[io])
+                    wop = 'WLincomb2 %s %s %s %s %s' % (cl(a), tms[i1], cl(b), tms[i2], tms[io])
+                elif op == 'multiply':
+                    res = space.multiply(els[i1], els[i2], out=els[io])
+                    wop = 'WMultiply %s %s %s' % (tms[i1], tms[i2], tms[io])
+                else:
+                    res = space.divide(els[i1], els[i2], out=els[io])
+                    wop = 'WDivide %s %s %s' % (tms[i1], tms[i2], tms[io])
+            elif op == 'lincomb1':
+                out = x if rng.random() < 0.4 else y
+                desc['a'] = str(c)
+                res = space.lincomb(c, x, out=out)
+                wop = 'WLincomb1 %s %s %s' % (cl(c), tx, ctx.term(out))
+            elif op == 'assign':
+                x.assign(y); wop = 'WAssign %s %s' % (tx, ty)
+            elif op == 'set_zero':
+                x.set_zero(); wop = 'WSetZero %s' % tx
+            elif op == 'copy':
+                res = x.copy()
+                if _is_pse(x):
+                    wop = 'WCopy %s %s' % (tx, ctx.term(res, True))
+                else:
+                    wop = 'WCopyLeaf %s %s' % (tx.split()[1].rstrip(')'), ctx.term(res, True).split()[1].rstrip(')'))
+            elif op in ('iadd', 'isub', 'imul', 'itruediv'):
+                res = {'iadd': x.__iadd__, 'isub': x.__isub__, 'imul': x.__imul__, 'itruediv': x.__itruediv__}[op](y)
+                assert res is x
+                wop = '%s %s %s' % ({'iadd': 'WIAdd', 'isub': 'WISub', 'imul': 'WIMul', 'itruediv': 'WITrueDiv'}[op], tx, ty)
+            elif op in ('add', 'sub', 'mul', 'truediv', 'rsub', 'rtruediv'):
+                f = {'add': lambda: x + y, 'sub': lambda: x - y, 'mul': lambda: x * y, 'truediv': lambda: x / y,
+                     'rsub': lambda: x.__rsub__(y), 'rtruediv': lambda: x.__rtruediv__(y)}[op]
+                res = f()
+                wop = '%s %s %s %s' % ({'add': 'WAdd', 'sub': 'WSub', 'mul': 'WMul', 'truediv': 'WTrueDiv',
+                                        'rsub': 'WRSub', 'rtruediv': 'WRTrueDiv'}[op], tx, ty, ctx.term(res, True))
+            elif op in ('iadd_s', 'isub_s'):
+                res = (x.__iadd__ if op == 'iadd_s' else x.__isub__)(c)
+                desc['c'] = str(c)
+                wop = '%s %s %s %s' % ('WIAddS' if op == 'iadd_s' else 'WISubS', tx, cl(c), ctx.hidden_like(x))
+            elif op in ('imul_s', 'itruediv_s'):
+                res = (x.__imul__ if op == 'imul_s' else x.__itruediv__)(c)
+                desc['c'] = str(c)
+                wop = '%s %s %s' % ('WIMulS' if op == 'imul_s' else 'WITrueDivS', tx, cl(c))
+            elif op in ('add_s', 'radd_s', 'sub_s', 'rsub_s', 'mul_s', 'rmul_s', 'truediv_s', 'rtruediv_s'):
+                f = {'add_s': lambda: x + c, 'radd_s': lambda: c + x, 'sub_s': lambda: x - c, 'rsub_s': lambda: c - x,
+                     'mul_s': lambda: x * c, 'rmul_s': lambda: c * x, 'truediv_s': lambda: x / c,
+                     'rtruediv_s': lambda: c / x}[op]
+                res = f()
+                desc['c'] = str(c)
+                nm = {'add_s': 'WAddS', 'radd_s': 'WAddS', 'sub_s': 'WSubS', 'rsub_s': 'WRSubS', 'mul_s': 'WMulS',
+                      'rmul_s': 'WMulS', 'truediv_s': 'WTrueDivS', 'rtruediv_s': 'WRTrueDivS'}[op]
+                wop = '%s %s %s %s' % (nm, tx, cl(c), ctx.term(res, True))
+            elif op in ('neg', 'pos'):
+                res = -x if op == 'neg' else +x
+                if op == 'pos' and not _is_pse(x):
+                    wop = 'WCopyLeaf %s %s' % (tx.split()[1].rstrip(')'), ctx.term(res, True).split()[1].rstrip(')'))
+                else:
+                    wop = '%s %s %s' % ('WNeg' if op == 'neg' else 'WPos', tx, ctx.term(res, True))
+            elif op == 'ipow':
+                pw = rng.randint(0, 6)
+                desc['p'] = pw
+                res = x.__ipow__(pw)
+                assert res is x
+                generic = _is_pse(x)
+                wop = 'WIPow %s %s %d %s %s' % (C.b(generic), tx, pw, ctx.hidden_like(x), ctx.hidden_like(x))
+            else:
+                raise ValueError(op)
+        except TypeError as e:
+            if 'Cannot cast ufunc' not in str(e):
+                raise
+            err = 1
+            if 'wop' not in dir():
+                wop = None
+    if err:
+        # the operation raised a casting error (true division into an integer array)
+        nm = {'itruediv': 'WITrueDiv %s %s' % (tx, ty), 'truediv': 'WTrueDiv %s %s %s' % (tx, ty, ctx.hidden_like(x)),
+              'rtruediv': 'WRTrueDiv %s %s %s' % (tx, ty, ctx.hidden_like(x)),
+              'rtruediv_s': 'WRTrueDivS %s %s %s' % (tx, cl(c), ctx.hidden_like(x)),
+              'divide': 'WDivide %s %s %s' % (tx, ty, tx)}
+        if op not in nm:
+            raise AssertionError('unexpected casting error in %s' % op)
+        wop = nm[op]
+    real_ids = [k for k, o in enumerate(ctx.objs) if o is not None]
+    final = [(np.asarray(o.data) if o is not None else ctx.init[k]) for k, o in enumerate(ctx.objs)]
+    term = ('mkW %s %s %s (%s) [%s] %s [%s] %d'
+            % (coq_space(recipe), '[' + '; '.join(C.b(v) for v in ctx.bdt) + ']',
+               '[' + '; '.join('(%s, %s)' % (C.b(cf), C.b(ff)) for cf, ff in ctx.flags) + ']',
+               wop, '; '.join(compress(carrier, a) for a in ctx.init),
+               '[' + '; '.join('%d' % k for k in real_ids) + ']%nat',
+               '; '.join(compress(carrier, a) for a in final), err))
+    desc['err'] = err
+    desc['shape'] = [max(int(np.prod(l[2])) for l in leaves)]
+    key = (op, repr(recipe), same, poison, desc.get('alias'), desc.get('a'), desc.get('b'), desc.get('c'),
+           desc.get('p'), err)
+    return term, desc, key, carrier, tol
+
+
+OPS = ['lincomb2', 'lincomb1', 'multiply', 'divide', 'assign', 'set_zero', 'copy',
+       'iadd', 'isub', 'imul', 'itruediv', 'add', 'sub', 'mul', 'truediv', 'rsub', 'rtruediv',
+       'iadd_s', 'isub_s', 'imul_s', 'itruediv_s', 'add_s', 'radd_s', 'sub_s', 'rsub_s', 'mul_s', 'rmul_s',
+       'truediv_s', 'rtruediv_s', 'neg', 'pos', 'ipow']
+
+
+def rand_recipe(rng, base, depth):
+    dts = {'real': ['float64', 'float64', 'float32'], 'cx': ['complex128', 'complex64'],
+           'int': ['int64', 'int32'], 'mixed': ['float64', 'int64']}[base]
+    if depth == 0 or rng.random() < 0.3:
+        kind = rng.choice(['T', 'T', 'D'])
+        shape = rng.choice([(1,), (2,), (3,), (5,), (2, 3), (100,), (10, 12), (3, 4, 2)])
+        return (kind, rng.choice(dts), shape)
+    n = rng.randint(1, 3)
+    if rng.random() < 0.4:       # power space
+        c = rand_recipe(rng, base, depth - 1)
+        return ('P', [c] * n)
+    return ('P', [rand_recipe(rng, base, depth - 1) for _ in range(n)])
+
+
+def space_cases(rng, tier, S):
+    quick = tier == 'quick'
+    fixed = [('T', 'float64', (3,)), ('T', 'float64', (100,)), ('D', 'float64', (4, 5)), ('D', 'float64', (10, 10)),
+             ('T', 'complex128', (3,)), ('D', 'complex128', (101,)), ('T', 'int64', (4,)), ('T', 'int32', (150,)),
+             ('T', 'float32', (6,)),
+             ('P', [('T', 'float64', (3,)), ('T', 'float64', (2,))]),
+             ('P', [('T', 'float64', (3,))] * 3),
+             ('P', [('P', [('D', 'float64', (2, 2)), ('T', 'float64', (100,))]), ('T', 'float64', (4,))]),
+             ('P', [('P', [('T', 'complex128', (2,))] * 2)] * 2),
+             ('P', [('T', 'float64', (3,)), ('T', 'int64', (3,))]),
+             ('P', [('T', 'int64', (3,))] * 2),
+             ('P', [('T', 'float64', (1,))])]
+    nrand = 10 if quick else 60
+    recipes = list(fixed)
+    for _ in range(nrand):
+        recipes.append(rand_recipe(rng, rng.choice(['real', 'real', 'cx', 'int', 'mixed']), rng.randint(1, 3)))
+    reps = 1 if quick else 3
+    for r in recipes:
+        for op in OPS:
+            for _ in range(reps):
+                S.put('sp', 'x', space_case(rng, r, op), CHECKW, 'caseW %s')
+        bases = set(DT[l[1]][0] for l in leaf_recipes(r))
+        if 'int' not in bases:
+            for op in (OPS if not quick else rng.sample(OPS, 12)):
+                S.put('sp', 'x', space_case(rng, r, op, poison=True), CHECKW, 'caseW %s')
+    # a few large leaves (BLAS regime through the public API)
+    for r in [('D', 'float64', (50000,)), ('P', [('T', 'float64', (50001,)), ('T', 'float64', (3,))])]:
+        for op in (['lincomb2', 'iadd', 'add_s', 'rsub_s', 'imul_s', 'assign'] if quick else OPS):
+            S.put('sp', 'x', space_case(rng, r, op), CHECKW, 'caseW %s')
+
+
 # ------------------------------------------------------------------ framework entry points
 def translate():
     return {'Gen/Lincomb.v': TL.translate()}
@@ -293,6 +638,7 @@ def translate():
 def correspondence(rng, tier):
     S = Sets()
     lincomb_cases(rng, tier, S)
+    space_cases(rng, tier, S)
     return S.all()
 
 
